@@ -12,8 +12,10 @@ VERUS_UNITS = {
                  native_search=dict(src='src/msgpack.rs', file='msgpack_search.rs'),
                  props=['C18', 'C04', 'C02', 'C03']),
     'U-CHK-V': dict(module='contracts.verus.yaml_chunker', min_verified=19, timeout=600,
+                    native_search=dict(src='src/yaml/chunker.rs', file='chunker_search.rs'),
                     props=['C03', 'C05', 'C04', 'C02', 'C12']),
     'U-ENC-V': dict(module='contracts.verus.yaml_encoding', min_verified=15, timeout=600,
+                    native_search=dict(src='src/yaml/encoding.rs', file='encoder_search.rs'),
                     props=['C07', 'C02', 'C04', 'C05', 'C12', 'C01']),
     'U-MP-X': dict(module='contracts.verus.msgpack_transcode', min_verified=24, timeout=600,
                    native_search=dict(src='src/msgpack.rs', file='msgpack_search.rs'),
@@ -23,6 +25,7 @@ VERUS_UNITS = {
     'U-MAIN-V': dict(module='contracts.verus.cli_main', min_verified=7, timeout=600,
                      props=['C14', 'C03', 'C15', 'C13']),
     'U-CAP-V': dict(module='contracts.verus.input_capture', min_verified=18, timeout=600,
+                    native_search=dict(src='src/input.rs', file='capture_search.rs'),
                     props=['C09', 'C02', 'C04', 'C05', 'C12']),
 }
 
